@@ -119,6 +119,8 @@ func checkC11(c *Ctx, r *Report, tier string) {
 	r.Rule("C11.R3", "id pairing: the NotificationId placed in a proposal is the id returned by the Create of the same activation, Remove(id) is deferred, the apply side notifies the id parsed from that field, and the value it notifies is the error of the index operation of that path (never a constant on a path that has one); ids are fresh random uuids; a channel looked up in the notificator is only used under its mutex", 10)
 	r.Rule("C11.R4", "the dimension check dominates propose and proxy on every vector-carrying Dataset entry point; batch paths forward only the checked subset", 4)
 	r.Rule("C11.R5", "success only from the notification: a proposing function returns a nil error only on the arm that received from its own notification channel; the partition methods return nil only when the received outcome is nil", 3)
+	r.Rule("C11.R7", "a waiter is released only by its own outcome or its own deadline: a notification channel is closed only through the removal of one id, requested by the function that created that id", 2)
+	notificationChannelsClosedByOwnerOnly(c, r, "C11.R7")
 	r.Rule("C11.R6", "batch error map: every failed partition request maps each of its items to the error; results of all workers are merged", 3)
 	for _, k := range []string{"success-return", "outcome-tested", "nil-only-if-outcome-nil"} {
 		r.Need("C11.R5", k, "the proposing functions and their callers must be found")
@@ -419,12 +421,54 @@ func dimensionGuards(c *Ctx) map[*ssa.Function]bool {
 	return out
 }
 
+// guardDisabledAt: the callee is a guard only under a boolean parameter, and this call passes the constant that switches
+// the guard off (checkBatchItems(items, false)).
+func guardDisabledAt(call *ssa.Call, guards map[*ssa.Function]bool) bool {
+	g := call.Call.StaticCallee()
+	if g == nil || len(g.Blocks) == 0 {
+		return false
+	}
+	// the guarding constructs inside g: calls to other guards, or the dimension comparison itself
+	var sites []*ssa.BasicBlock
+	eachInstr(g, func(i ssa.Instruction) {
+		if cl, ok := i.(*ssa.Call); ok && guards[cl.Call.StaticCallee()] {
+			sites = append(sites, cl.Block())
+		}
+	})
+	if len(sites) == 0 {
+		return false
+	}
+	for _, ifi := range allIfs(g) {
+		p, isP := ifi.Cond.(*ssa.Parameter)
+		if !isP {
+			continue
+		}
+		all := true
+		for _, b := range sites {
+			if !guardedBy(b, ifi, true) {
+				all = false
+			}
+		}
+		if !all {
+			continue
+		}
+		for k, q := range g.Params {
+			if q == p && k < len(call.Call.Args) {
+				if cst, isC := call.Call.Args[k].(*ssa.Const); isC && cst.Value != nil && cst.Value.String() == "false" {
+					return true
+				}
+			}
+		}
+	}
+	return false
+}
+
 // itemFilterShape: f checks each batch item with a dimension guard and appends to BatchItem slices only on the guard's
 // success side. Returns the guard call (nil if the shape is absent).
 func itemFilterShape(f *ssa.Function, guards map[*ssa.Function]bool) (*ssa.Call, bool) {
 	var g *ssa.Call
 	eachInstr(f, func(i ssa.Instruction) {
-		if cl, ok := i.(*ssa.Call); ok && guards[cl.Call.StaticCallee()] {
+		if cl, ok := i.(*ssa.Call); ok && guards[cl.Call.StaticCallee()] && !guardDisabledAt(cl, guards) {
 			g = cl
 		}
 	})
@@ -510,7 +554,7 @@ func c11R4(c *Ctx, r *Report) {
 			var g *ssa.Call
 			eachInstr(f, func(i ssa.Instruction) {
 				cl, ok := i.(*ssa.Call)
-				if !ok || !guards[cl.Call.StaticCallee()] {
+				if !ok || !guards[cl.Call.StaticCallee()] || guardDisabledAt(cl, guards) {
 					return
 				}
 				for _, a := range cl.Call.Args {
@@ -565,7 +609,7 @@ func c11R4(c *Ctx, r *Report) {
 		var g *ssa.Call
 		var viaHelper *ssa.Call
 		eachInstr(f, func(i ssa.Instruction) {
-			if cl, ok := i.(*ssa.Call); ok && guards[cl.Call.StaticCallee()] {
+			if cl, ok := i.(*ssa.Call); ok && guards[cl.Call.StaticCallee()] && !guardDisabledAt(cl, guards) {
 				g = cl
 			}
 			if cl, ok := i.(*ssa.Call); ok && filters[cl.Call.StaticCallee()] {
@@ -601,6 +645,24 @@ func c11R4(c *Ctx, r *Report) {
 			continue
 		}
 		if g == nil {
+			// no (enabled) check at all: fine for id-only batches, a violation when the items' values are proposed
+			sink := ""
+			eachInstr(f, func(i ssa.Instruction) {
+				cc := asCall(i)
+				if cc == nil || cc.StaticCallee() == nil || cc.StaticCallee().Signature.Recv() == nil || namedOf(cc.StaticCallee().Signature.Recv().Type()) != partT {
+					return
+				}
+				t := cc.StaticCallee()
+				n := strings.ToLower(t.Name())
+				for _, p := range t.Params[1:] {
+					if strings.Contains(p.Type().String(), "BatchItem") && (strings.Contains(n, "insert") || strings.Contains(n, "update")) {
+						sink = t.Name() + " at " + c.InstrPos(i)
+					}
+				}
+			})
+			if sink != "" {
+				r.Bad("C11.R4", fnName(f), "batch-forwards-checked", c.Pos(f.Pos()), "the items reach the value-carrying batch proposal "+sink+" without an (enabled) dimension check: a wrong-dimension value is proposed, committed, applied on every replica and its id reported as succeeded")
+			}
 			continue
 		}
 		ifi, errPol := errTestOf(f, g)
@@ -1112,6 +1174,9 @@ func sendCounts(f *ssa.Function, match func(*ssa.Send) bool) (int, int) {
 // ---- C09 -------------------------------------------------------------------------------------
 
 func checkC09(c *Ctx, r *Report, tier string) {
+	_ = tier
+	r.Rule("C09.R5", "each node is asked once: the worker opens the node's result stream at one site, outside any loop", 1)
+	streamOpenedOnce(c, r, "C09.R5")
 	r.Rule("C09.R1", "every partition exactly once: the plan function appends each partition's id to exactly one bucket on every path of its loop, the bucket key being an element of that partition's own node list", 1)
 	r.Rule("C09.R2", "one worker per bucket, one message per worker: the spawn loop ranges over the plan, the collector loop is bounded by the size of the same collection, each worker sends exactly one message on every path", 4)
 	r.Rule("C09.R3", "a closed channel cannot masquerade as a message: a counted select with two or more message arms receives from no channel that the same function (or a goroutine it spawns) closes", 2)
